@@ -919,7 +919,9 @@ func specialStreams(c *specialCtx) {
 			}
 		}
 		// directly on the backend: sizes up to what a winsize can hold (no buffers of that size needed)
-		for _, sz := range [][2]int{{100, 4095}, {100, 4096}, {100, 5000}, {8191, 30}, {8192, 30}, {9000, 40}, {65535, 65535}, {300, 65535}} {
+		for _, sz := range [][2]int{{100, 4095}, {100, 4096}, {100, 5000}, {8191, 30}, {8192, 30}, {9000, 40}, {65535, 65535}, {300, 65535},
+			// beyond what a winsize holds: an error, never another size
+			{65536, 24}, {65616, 24}, {80, 65536}, {70000, 70000}, {131152, 40}} {
 			if err := pb.SetSize(sz[0], sz[1]); err != nil {
 				continue
 			}
